@@ -36,6 +36,15 @@ Fixpoint py_lstrip (s chars : list Z) : list Z :=
 (* os.path.isabs on POSIX (posixpath.isabs): s.startswith('/') *)
 Definition py_posix_isabs (s : list Z) : bool := py_startswith s [47].
 
+(* x in s  for a set / list of ints *)
+Definition py_in_ints (x : Z) (l : list Z) : bool := existsb (Z.eqb x) l.
+(* sum(l) *)
+Definition py_sum (l : list Z) : Z := fold_left Z.add l 0.
+(* l.count(True) on a list of bools *)
+Definition py_count_true (l : list bool) : Z := Z.of_nat (length (filter (fun b => b) l)).
+(* next(it) on an iterator over a list (what is left of it): StopIteration at the end *)
+Definition py_next {A} (l : list A) : res (A * list A) := match l with [] => Err EOther | x :: r => Ok (x, r) end.
+
 (* l.pop() as a statement (the element is discarded): IndexError on the empty list *)
 Definition py_pop_ {A} (l : list A) : res (list A) :=
   match l with [] => Err EOther | _ :: _ => Ok (removelast l) end.
